@@ -2,7 +2,7 @@
 C12 — Signomial and Polynomial arithmetic is pointwise arithmetic.
 Property theorems about `Model/Sig.lean`.
 -/
-import SageoptModel.Model.Sig
+import SageoptModel.Lemmas.SigEq
 
 namespace Sageopt.Props.C12
 open Sageopt.Sig
@@ -11,5 +11,321 @@ open Sageopt.Sig
 theorem consolidate_nodup_id (ts : List (Exp × Rat)) (h : hasDupKeys (keys ts) = false) :
     consolidate ts = ts := by
   simp [consolidate, h]
+
+variable {C : Type} [CommRing C]
+
+/-! rounding -/
+theorem round7_idem (q : Rat) : round7 (round7 q) = round7 q := round7_idem' q
+
+/-- the grid is closed under addition, so the rounding inside `product` is the identity on
+    constructed signomials -/
+theorem round7_add_grid (a b : Rat) (ha : round7 a = a) (hb : round7 b = b) : round7 (a + b) = a + b :=
+  round7_add_grid' a b ha hb
+
+theorem round7_zero : round7 0 = 0 := round7_zero'
+
+/-- half-integers (the generated domain) are on the grid -/
+theorem round7_half_int (k : Int) : round7 ((k : Rat) / 2) = (k : Rat) / 2 := round7_half_int' k
+
+/-! construction: repeated rows are added; the result satisfies the representation invariant -/
+theorem mk_wf (n : Nat) (ts : List (Exp × C)) (hw : ∀ t ∈ ts, t.1.length = n) : Wf (mk n ts) :=
+  mk_wf' n ts hw
+
+theorem mk_coeff (n : Nat) (ts : List (Exp × C)) (a : Exp) :
+    coeff (mk n ts).terms a = coeff (ts.map fun t => (roundExp t.1, t.2)) a := mk_coeff' n ts a
+
+theorem mk_eval (n : Nat) (ts : List (Exp × C)) (χ : Exp → C) :
+    eval χ (mk n ts).terms = eval χ (ts.map fun t => (roundExp t.1, t.2)) := mk_eval' n ts χ
+
+/-- on-grid, distinct rows: the constructor changes nothing (row order preserved) -/
+theorem mk_id (f : SigT C) (hf : Wf f) : mk f.n f.terms = f := mk_id' f hf
+
+/-! without_zeros -/
+theorem withoutZeros_coeff (isZero : C → Bool) (hz : ∀ c, isZero c = true ↔ c = 0) (f : SigT C) (hf : Wf f) (a : Exp) :
+    coeff (withoutZeros isZero f).terms a = coeff f.terms a :=
+  withoutZeros_coeff' isZero hz f hf.grid a
+
+theorem withoutZeros_wf (isZero : C → Bool) (f : SigT C) (hf : Wf f) : Wf (withoutZeros isZero f) :=
+  withoutZeros_wf' isZero f hf
+
+/-- no explicitly-zero term survives, other than the zero function's single term -/
+theorem withoutZeros_no_zero (isZero : C → Bool) (hz : ∀ c, isZero c = true ↔ c = 0) (f : SigT C) (hf : Wf f) :
+    (∀ t ∈ (withoutZeros isZero f).terms, t.2 ≠ 0) ∨ (withoutZeros isZero f).terms.length = 1 :=
+  withoutZeros_no_zero' isZero hz f hf
+
+/-! sums -/
+theorem sum_coeff (f g : SigT C) (hf : Wf f) (hg : Wf g) (hn : f.n = g.n) (a : Exp) :
+    coeff (sumList f.n [f, g]).terms a = coeff f.terms a + coeff g.terms a := by
+  have := sumList_coeff' f.n [f, g] (by
+    intro x hx
+    simp only [List.mem_cons, List.not_mem_nil, or_false] at hx
+    rcases hx with rfl | rfl <;> assumption) a
+  simpa using this
+
+theorem add_hom (isZero : C → Bool) (hz : ∀ c, isZero c = true ↔ c = 0) (f g h : SigT C) (hf : Wf f) (hg : Wf g)
+    (hadd : add isZero f g = .ok h) :
+    Wf h ∧ (∀ a, coeff h.terms a = coeff f.terms a + coeff g.terms a) ∧
+    (∀ χ : Exp → C, eval χ h.terms = eval χ f.terms + eval χ g.terms) ∧
+    ((∀ t ∈ h.terms, t.2 ≠ 0) ∨ h.terms.length = 1) := by
+  unfold add at hadd
+  split at hadd
+  · exact absurd hadd (by simp)
+  · rename_i hn
+    have hn : f.n = g.n := not_not.1 hn
+    simp only [Res.ok.injEq] at hadd
+    subst hadd
+    have hs : Wf (sumList f.n [f, g]) := by
+      apply sumList_wf
+      intro x hx
+      simp only [List.mem_cons, List.not_mem_nil, or_false] at hx
+      rcases hx with rfl | rfl
+      · exact ⟨hf, rfl⟩
+      · exact ⟨hg, hn.symm⟩
+    have hc : ∀ a, coeff (withoutZeros isZero (sumList f.n [f, g])).terms a =
+        coeff f.terms a + coeff g.terms a := by
+      intro a
+      rw [withoutZeros_coeff isZero hz _ hs, sum_coeff f g hf hg hn]
+    exact ⟨withoutZeros_wf isZero _ hs, hc, fun χ => eval_add_of_coeff χ hc,
+      withoutZeros_no_zero isZero hz _ hs⟩
+
+theorem add_raises_iff (isZero : C → Bool) (f g : SigT C) :
+    (∃ m, add isZero f g = .raises m) ↔ f.n ≠ g.n := by
+  unfold add
+  constructor
+  · rintro ⟨m, hm⟩
+    split at hm
+    · assumption
+    · exact absurd hm (by simp)
+  · intro h
+    rw [if_pos h]
+    exact ⟨_, rfl⟩
+
+set_option linter.unusedVariables false in
+/-- `Signomial.sum` of any list (Lagrangian summands): coefficientwise sum -/
+theorem sumList_coeff (n : Nat) (fs : List (SigT C)) (hfs : ∀ f ∈ fs, Wf f ∧ f.n = n) (hne : fs ≠ []) (a : Exp) :
+    coeff (sumList n fs).terms a = (fs.map fun f => coeff f.terms a).sum :=
+  sumList_coeff' n fs (fun f hf => (hfs f hf).1) a
+
+/-! products -/
+theorem product_eval (n : Nat) (χ : Exp → C) (hχ : IsChar n χ) (f g : SigT C) (hf : Wf f) (hg : Wf g)
+    (hfn : f.n = n) (hgn : g.n = n) :
+    eval χ (product f g).terms = eval χ f.terms * eval χ g.terms :=
+  product_eval' n χ hχ f g hf hg hfn hgn
+
+set_option linter.unusedVariables false in
+theorem product_coeff (f g : SigT C) (hf : Wf f) (hg : Wf g) (hn : f.n = g.n) (a : Exp) :
+    coeff (product f g).terms a =
+      ((f.terms.flatMap fun t1 => g.terms.map fun t2 => if addExp t1.1 t2.1 == a then t1.2 * t2.2 else 0)).sum :=
+  product_coeff' f g hf.grid hg.grid a
+
+theorem mul_hom (isZero : C → Bool) (hz : ∀ c, isZero c = true ↔ c = 0) (n : Nat) (χ : Exp → C) (hχ : IsChar n χ)
+    (f g h : SigT C) (hf : Wf f) (hg : Wf g) (hfn : f.n = n) (hmul : mul isZero f g = .ok h) :
+    Wf h ∧ eval χ h.terms = eval χ f.terms * eval χ g.terms ∧
+    ((∀ t ∈ h.terms, t.2 ≠ 0) ∨ h.terms.length = 1) := by
+  unfold mul at hmul
+  split at hmul
+  · exact absurd hmul (by simp)
+  · rename_i hn
+    have hn : f.n = g.n := not_not.1 hn
+    simp only [Res.ok.injEq] at hmul
+    subst hmul
+    have hp : Wf (product f g) := product_wf f g hf hg hn
+    refine ⟨withoutZeros_wf isZero _ hp, ?_, withoutZeros_no_zero isZero hz _ hp⟩
+    rw [withoutZeros_eval isZero hz _ hp.grid, product_eval n χ hχ f g hf hg hfn (hn ▸ hfn)]
+
+theorem neg_hom (isZero : C → Bool) (hz : ∀ c, isZero c = true ↔ c = 0) (f : SigT C) (hf : Wf f) (a : Exp) :
+    Wf (neg isZero f) ∧ coeff (neg isZero f).terms a = - coeff f.terms a := by
+  unfold neg
+  refine ⟨smul_wf isZero f hf _, ?_⟩
+  rw [smul_coeff isZero hz f hf]
+  ring
+
+theorem sub_hom (isZero : C → Bool) (hz : ∀ c, isZero c = true ↔ c = 0) (f g h : SigT C) (hf : Wf f) (hg : Wf g)
+    (hsub : sub isZero f g = .ok h) :
+    Wf h ∧ (∀ a, coeff h.terms a = coeff f.terms a - coeff g.terms a) ∧
+    ((∀ t ∈ h.terms, t.2 ≠ 0) ∨ h.terms.length = 1) := by
+  unfold sub at hsub
+  obtain ⟨h1, h2, _, h4⟩ := add_hom isZero hz f _ h hf (smul_wf isZero g hg (-1)) hsub
+  refine ⟨h1, fun a => ?_, h4⟩
+  rw [h2 a, smul_coeff isZero hz g hg]
+  ring
+
+theorem powNat_eval (isZero : C → Bool) (hz : ∀ c, isZero c = true ↔ c = 0) (n : Nat) (χ : Exp → C) (hχ : IsChar n χ)
+    (f : SigT C) (hf : Wf f) (hfn : f.n = n) (k : Nat) :
+    Wf (powNat isZero f k) ∧ eval χ (powNat isZero f k).terms = (eval χ f.terms) ^ k :=
+  powNat_spec isZero hz n χ hχ f hf hfn k
+
+/-! numeric instance: monomial powers, division, equality -/
+theorem ratRoot_spec (k : Nat) (hk : 0 < k) (q r : Rat) (h : ratRoot? k q = some r) : 0 ≤ r ∧ r ^ k = q :=
+  Sig.ratRoot_spec k hk q r h
+
+theorem ratPowInt_spec (v : Rat) (hv : v ≠ 0) (p : Int) : ratPowInt v p = v ^ p :=
+  Sig.ratPowInt_spec v hv p
+
+/-- a (negative / fractional) power of a monomial is the monomial with scaled exponent and the exact
+    power of the coefficient: `c' ^ p.den = c ^ p.num` -/
+theorem pow_monomial (f g : SigT Rat) (p : Rat) (hp : ¬ (p.den = 1 ∧ p ≥ 0)) (h : pow f p = .ok g) :
+    ∃ a c c', (f.terms.filter fun t => !(isZeroQ t.2)) = [(a, c)] ∧ c ≠ 0 ∧
+      g = mk f.n [(a.map (p * ·), c')] ∧ c' ^ p.den = c ^ p.num :=
+  Sig.pow_monomial f g p hp h
+
+/-- division by a one-term signomial multiplies by its reciprocal monomial -/
+theorem div_hom (n : Nat) (χ : Exp → Rat) (hχ : IsChar n χ) (f g h : SigT Rat) (hf : Wf f) (hg : Wf g)
+    (hfn : f.n = n) (hgn : g.n = n) (hdiv : div f g = .ok h)
+    (hgrid : ∀ t ∈ g.terms, OnGrid (t.1.map (-1 * ·))) :
+    eval χ h.terms * eval χ g.terms = eval χ f.terms := by
+  unfold div at hdiv
+  split at hdiv
+  · rename_i gi hpow
+    have hp : ¬ ((-1 : Rat).den = 1 ∧ (-1 : Rat) ≥ 0) := by
+      rintro ⟨_, h2⟩
+      exact absurd h2 (by norm_num)
+    obtain ⟨a, c, c', hfilt, hc0, hgi, hcc⟩ := pow_monomial g gi (-1) hp hpow
+    have hmem : (a, c) ∈ g.terms := by
+      have : (a, c) ∈ (g.terms.filter fun t => !(isZeroQ t.2)) := by rw [hfilt]; simp
+      exact List.mem_of_mem_filter this
+    have halen : a.length = n := by rw [← hgn]; exact hg.width _ hmem
+    have hgiw : Wf gi := by
+      rw [hgi]
+      apply mk_wf
+      intro t ht
+      simp only [List.mem_singleton] at ht
+      rw [ht]
+      simpa using hg.width _ hmem
+    have hgit : gi.terms = [(a.map (-1 * ·), c')] := by
+      rw [hgi]
+      apply mk_terms_of_wf
+      · intro t ht
+        simp only [List.mem_singleton] at ht
+        rw [ht]
+        exact hgrid _ hmem
+      · simp [keys]
+    obtain ⟨_, hev, _⟩ := mul_hom isZeroQ isZeroQ_iff n χ hχ f gi h hf hgiw hfn hdiv
+    have hevg : eval χ g.terms = c * χ a := by
+      have h1 : eval χ g.terms = eval χ (keepNZ isZeroQ g) :=
+        eval_congr_coeff χ (fun b => (keepNZ_coeff isZeroQ isZeroQ_iff g b).symm)
+      have h2 : keepNZ isZeroQ g = [(a, c)] := hfilt
+      rw [h1, h2, eval_cons]
+      simp
+    have hcc' : c' * c = 1 := by
+      have e1 : (-1 : Rat).den = 1 := rfl
+      have e2 : (-1 : Rat).num = -1 := rfl
+      rw [e1, e2, pow_one, zpow_neg_one] at hcc
+      rw [hcc]
+      exact inv_mul_cancel₀ hc0
+    have hχ1 : χ (a.map (-1 * ·)) * χ a = 1 := by
+      rw [← hχ.add _ _ (by simpa using halen) halen, addExp_neg, halen, hχ.zero]
+    rw [hev, hevg, hgit, eval_cons]
+    simp only [eval_nil, add_zero]
+    calc eval χ f.terms * (c' * χ (a.map (-1 * ·))) * (c * χ a)
+        = eval χ f.terms * ((c' * c) * (χ (a.map (-1 * ·)) * χ a)) := by ring
+      _ = eval χ f.terms := by rw [hcc', hχ1]; ring
+  · exact absurd hdiv (by simp)
+
+theorem eq_refl (tol : Rat) (htol : 0 ≤ tol) (f : SigT Rat) (hf : Wf f) : eqCode tol f f = true := by
+  rw [eqCode_iff tol htol f f hf hf]
+  intro a
+  simpa using htol
+
+theorem eq_symm (tol : Rat) (f g : SigT Rat) : eqCode tol f g = eqCode tol g f := by
+  rw [eqCode_eq, eqCode_eq, Bool.and_comm]
+
+/-- equality holds exactly when all coefficients agree up to the tolerance (at `tol = 0`: the
+    coefficient functions coincide) -/
+theorem eq_iff (tol : Rat) (htol : 0 ≤ tol) (f g : SigT Rat) (hf : Wf f) (hg : Wf g) :
+    eqCode tol f g = true ↔ ∀ a : Exp, |coeff f.terms a - coeff g.terms a| ≤ tol :=
+  eqCode_iff tol htol f g hf hg
+
+theorem queryCoeff_eq (f : SigT Rat) (hf : Wf f) (a : Exp) : queryCoeff f a = coeff f.terms (roundExp a) :=
+  queryCoeff_eq' f hf.nodup a
+
+/-! ### non-vacuity: the hypotheses of the theorems above are satisfiable at `Rat`
+(concrete values are checked by `decide` on the executable model; core `Rat` operations are
+irreducible, hence `with_unfolding_all`) -/
+section NonVacuity
+
+@[instance_reducible] private def decEqSig : DecidableEq (SigT Rat) := fun a b =>
+  match a, b with
+  | ⟨n1, t1⟩, ⟨n2, t2⟩ =>
+    if h : n1 = n2 ∧ t1 = t2 then isTrue (by rw [h.1, h.2])
+    else isFalse (fun e => h (by cases e; exact ⟨rfl, rfl⟩))
+
+@[instance_reducible] private def decEqRes : DecidableEq (Res (SigT Rat)) := fun a b =>
+  match a, b with
+  | .ok x, .ok y =>
+    match decEqSig x y with
+    | isTrue h => isTrue (by rw [h])
+    | isFalse h => isFalse (fun e => h (by cases e; rfl))
+  | .raises x, .raises y =>
+    if h : x = y then isTrue (by rw [h]) else isFalse (fun e => h (by cases e; rfl))
+  | .ok _, .raises _ => isFalse (fun e => by cases e)
+  | .raises _, .ok _ => isFalse (fun e => by cases e)
+
+attribute [local instance] decEqSig decEqRes
+
+/-- `3·e^{x₁} − e^{x₂/2}` -/
+private def fEx : SigT Rat := ⟨2, [([1, 0], 3), ([0, 1/2], -1)]⟩
+/-- `e^{x₂/2} + 5·e^{2x₁}` -/
+private def gEx : SigT Rat := ⟨2, [([0, 1/2], 1), ([2, 0], 5)]⟩
+/-- the monomial `2·e^{x₁ + x₂/2}` -/
+private def mEx : SigT Rat := ⟨2, [([1, 1/2], 2)]⟩
+
+private theorem grid_of {ts : List (Exp × Rat)} (h : ∀ t ∈ ts, ∀ q ∈ t.1, round7 q = q) :
+    ∀ t ∈ ts, OnGrid t.1 := h
+
+private theorem fEx_wf : Wf fEx := ⟨by decide, grid_of (by with_unfolding_all decide), by decide⟩
+private theorem gEx_wf : Wf gEx := ⟨by decide, grid_of (by with_unfolding_all decide), by decide⟩
+private theorem mEx_wf : Wf mEx := ⟨by decide, grid_of (by with_unfolding_all decide), by decide⟩
+
+/-- the trivial character (every basis function evaluates to 1) -/
+private theorem one_isChar : IsChar 2 (fun _ => (1 : Rat)) := ⟨rfl, fun _ _ _ _ => by simp⟩
+
+-- rounding: a value off the grid moves, values on the grid do not
+example : round7 (1/3) = 3333333/10000000 := by with_unfolding_all decide
+example : round7 (round7 (1/3)) = round7 (1/3) := round7_idem _
+example : round7 (1/2 + 3/2) = 1/2 + 3/2 :=
+  round7_add_grid _ _ (by simpa using round7_half_int 1) (by simpa using round7_half_int 3)
+
+-- the constructor merges rows that coincide after rounding (and then sorts)
+example : mk 1 [([1/3], (1 : Rat)), ([0.33333333], 2), ([0], 7)] = ⟨1, [([0], 7), ([0.3333333], 3)]⟩ := by
+  with_unfolding_all decide
+example : Wf (mk 1 [([1/3], (1 : Rat)), ([0.33333333], 2), ([0], 7)]) := mk_wf 1 _ (by decide)
+example : mk fEx.n fEx.terms = fEx := mk_id fEx fEx_wf
+
+-- sums: the cancelling term is dropped by `without_zeros`
+private theorem addEx : add isZeroQ fEx gEx = .ok ⟨2, [([1, 0], 3), ([2, 0], 5)]⟩ := by with_unfolding_all decide
+example : ∀ a, coeff [([1, 0], (3 : Rat)), ([2, 0], 5)] a = coeff fEx.terms a + coeff gEx.terms a :=
+  (add_hom isZeroQ isZeroQ_iff fEx gEx _ fEx_wf gEx_wf addEx).2.1
+example : ∃ m, add isZeroQ fEx ⟨3, []⟩ = .raises m := (add_raises_iff isZeroQ fEx ⟨3, []⟩).2 (by decide)
+example : sub isZeroQ fEx fEx = .ok ⟨2, [([0, 0], 0)]⟩ := by with_unfolding_all decide
+example : sumList 2 [fEx, gEx, fEx] = ⟨2, [([1, 0], 6), ([0, 1/2], -1), ([2, 0], 5)]⟩ := by with_unfolding_all decide
+
+-- products, powers
+private theorem mulEx : mul isZeroQ fEx gEx =
+    .ok ⟨2, [([1, 1/2], 3), ([0, 1], -1), ([3, 0], 15), ([2, 1/2], -5)]⟩ := by with_unfolding_all decide
+example : eval (fun _ => (1 : Rat)) [([1, 1/2], 3), ([0, 1], -1), ([3, 0], 15), ([2, 1/2], -5)] =
+    eval (fun _ => 1) fEx.terms * eval (fun _ => 1) gEx.terms :=
+  (mul_hom isZeroQ isZeroQ_iff 2 _ one_isChar fEx gEx _ fEx_wf gEx_wf rfl mulEx).2.1
+example : powNat isZeroQ fEx 2 = ⟨2, [([0, 1], 1), ([1, 1/2], -6), ([2, 0], 9)]⟩ := by with_unfolding_all decide
+example : neg isZeroQ fEx = ⟨2, [([1, 0], -3), ([0, 1/2], 1)]⟩ := by with_unfolding_all decide
+
+-- monomial powers and division
+example : ratRoot? 2 (9/4) = some (3/2) := by with_unfolding_all decide
+example : ratRoot? 2 2 = none := by with_unfolding_all decide
+private theorem powEx : pow ⟨2, [([1, 1/2], 4)]⟩ (-1/2) = .ok ⟨2, [([-1/2, -1/4], 1/2)]⟩ := by with_unfolding_all decide
+example : ¬ ((-1/2 : Rat).den = 1 ∧ (-1/2 : Rat) ≥ 0) := by with_unfolding_all decide
+private theorem divEx : div fEx mEx = .ok ⟨2, [([0, -1/2], 3/2), ([-1, 0], -1/2)]⟩ := by with_unfolding_all decide
+example : eval (fun _ => (1 : Rat)) [([0, -1/2], (3/2 : Rat)), ([-1, 0], -1/2)] * eval (fun _ => 1) mEx.terms =
+    eval (fun _ => 1) fEx.terms :=
+  div_hom 2 _ one_isChar fEx mEx _ fEx_wf mEx_wf rfl rfl divEx
+    (show ∀ t ∈ mEx.terms, ∀ q ∈ t.1.map (-1 * ·), round7 q = q by with_unfolding_all decide)
+
+-- equality and coefficient queries
+example : eqCode 0 fEx fEx = true := eq_refl 0 (le_refl 0) fEx fEx_wf
+example : eqCode 0 fEx gEx = false := by with_unfolding_all decide
+example : eqCode 0 fEx ⟨2, [([0, 1/2], -1), ([1, 0], 3)]⟩ = true := by with_unfolding_all decide
+example : queryCoeff fEx [0, 0.50000001] = -1 := by with_unfolding_all decide
+
+end NonVacuity
 
 end Sageopt.Props.C12
